@@ -104,6 +104,11 @@ def gen_plan(seed, tier):
     plan["f32_cols"] = r4.choice([2.0, 3.0, 3.5])
   if r4.random() < 0.4:
     plan["pickled_before_fit"] = True     # the estimator went through a pickle round trip before it is fitted
+  r6 = substream(seed, "c09-earlier")
+  if cls == "LFDA" and r6.random() < 0.3:
+    plan["earlier_life"] = dict(embedding_type=r6.choice([e for e in ("weighted", "orthonormalized", "plain")
+                                                          if e != params["embedding_type"]]),
+                                k=r6.choice([None, 1, 2, 3, 5]))
   if cls == "LFDA" and r2.random() < 0.15:
     # repeated measurements: a point whose k nearest class-mates coincide with it has
     # local scale 0, and the documented affinity of such a pair is 0
@@ -187,14 +192,26 @@ def run_plan(plan):
     cov["same_arrays_for_every_fit"] += 1
   try:
     for i, ft in enumerate(plan["fits"]):
-      world.EIGSH.mode, world.EIGSH.seed = ft["mode"], ft["seed"]
-      c0, f0 = world.EIGSH.calls, world.EIGSH.forced
-      g0 = world.EIGSH.eigh_forced
       est = getattr(ml, cls)(**p)
       if plan.get("pickled_before_fit"):
         import pickle
         est = pickle.loads(pickle.dumps(est))
         cov["pickled_before_fit"] += 1
+      if plan.get("earlier_life"):
+        # the object was used before with other hyper-parameters (set_params, fit, set_params back):
+        # the judged fit must compute the formula of the parameters it has now
+        world.EIGSH.mode, world.EIGSH.seed = "seeded", ft["seed"] ^ 0x5bd1
+        try:
+          with world.observed():
+            est.set_params(**plan["earlier_life"])
+            est.fit(X.copy(), y.copy())
+        except Exception:
+          pass
+        est.set_params(**{k: p[k] for k in plan["earlier_life"]})
+        cov["earlier_life_other_params"] += 1
+      world.EIGSH.mode, world.EIGSH.seed = ft["mode"], ft["seed"]
+      c0, f0 = world.EIGSH.calls, world.EIGSH.forced
+      g0 = world.EIGSH.eigh_forced
       pf = world.PinvhSeam(fail_first=bool(plan.get("pinvh_fault")))
       with world.observed() as wl, pf:
         try:
